@@ -150,6 +150,155 @@ class DoSingleRangeRequest(Contract):
     canaries = [("if offset == size == 0:", "if offset == 0:", "status_416_iff_unsatisfiable")]
 
 
+# -- the producers: which bytes of the file reach the request ----------------------------------------------------
+
+
+def _objs_snapshot(c):
+    return NSView({k: snapshot_of(o) for k, o in c.ghost["$objs"].items()})
+
+
+def file_read(I, recv, n=-1):
+    """the file object: read(n) returns the next min(n, rest) bytes of `content` and moves the position"""
+    c = ctx()
+    g = c.ghost
+    pos, content = g["pos"], g["content"]
+    data = content[pos:pos + n]
+    c.emit("read", recv, (pos, n))
+    g["pos"] = pos + L(data)
+    return data
+
+
+def request_write(I, recv, data):
+    """request.write() is a call-out that may call resumeProducing() again before it returns (the producers say
+    so themselves): recorded with the producer's state at that moment; the fork `inside` decides what the nested
+    call did (nothing / wrote the rest and finished the response)."""
+    c = ctx()
+    g = c.ghost
+    c.emit("request.write", recv, (data,), {}, _objs_snapshot(c))
+    g["pos_at_write"] = g["pos"]
+    if g["inside"] == "finished":
+        o = g["$objs"]["p"]
+        if c.concrete:
+            o.request = None
+        else:
+            o._fields["request"] = None
+    return None
+
+
+PRODUCER_CALLS = {"file.read": file_read, "request.write": request_write,
+                  "file.close": lambda I, recv: ctx().emit("close", recv),
+                  "request.unregisterProducer": lambda I, recv: ctx().emit("unregisterProducer", recv),
+                  "request.finish": lambda I, recv: ctx().emit("finish", recv)}
+
+
+class SingleRangeResume(Contract):
+    """One pull of the single-range producer: the next min(bufferSize, rest) bytes of the requested range, accounted
+    for *before* they are handed to request.write (which may re-enter), never beyond the range, response finished
+    exactly when the range is complete (seeded change C25-3)."""
+    prop = "C25"
+    module = M
+    function = "SingleRangeStaticProducer.resumeProducing"
+    calls = PRODUCER_CALLS
+    differential = False
+    inputs = dict(content=Bytes(alphabet=b"ab", small_len=4), offset=Int(lo=0, small=[0, 1, 2]), size=Int(lo=1, small=[1, 2, 4]),
+                  written=Int(lo=0, small=[0, 1, 2, 4]), bufsize=Int(lo=1, small=[1, 3, 65536]), gone=ForkBool(),
+                  inside=OneOf("nothing", "finished"))
+
+    def requires(self, i):
+        # what File._doSingleRangeRequest hands over: the range lies inside the file; the producer has not overrun it
+        return band(i.offset + i.size <= L(i.content), i.written <= i.size)
+
+    def setup(self, i):
+        req = None if i.gone else self.opaque("request")
+        p = self.make(static.SingleRangeStaticProducer, request=req, fileObject=self.opaque("file"), offset=i.offset,
+                      size=i.size, bytesWritten=i.written, bufferSize=i.bufsize)
+        return dict(self=p, args=[], objs=dict(p=p),
+                    ghost=dict(pos=i.offset + i.written, content=i.content, inside=i.inside, pos_at_write=None))
+
+    raises = ()
+
+    def _pull(S):
+        i = S.i
+        reads = S.calls("read")
+        writes = S.calls("request.write")
+        if i.gone:
+            return len(S.trace) == 0
+        n = vmin(i.bufsize, i.size - i.written)
+        lo = i.offset + i.written
+        ok = band(len(reads) == 1, reads[0].args[0] == lo, reads[0].args[1] == n)
+        if i.written == i.size or (is_sym(n) is False and n == 0):
+            return band(ok, len(writes) == 0)
+        if len(writes) == 0:
+            return band(ok, n == 0)
+        return band(ok, len(writes) == 1, veq(writes[0].args[0], i.content[lo:lo + n]), n > 0)
+
+    def _accounted(S):
+        return band(*[e.snap.p.bytesWritten == S.i.written + L(e.args[0]) for e in S.calls("request.write")])
+
+    def _finish(S):
+        i = S.i
+        fin, unreg, closed = S.calls("finish"), S.calls("unregisterProducer"), S.calls("close")
+        if i.gone:
+            return True
+        n = vmin(i.bufsize, i.size - i.written)
+        complete = i.written + n == i.size
+        still_there = True if (i.inside == "nothing" or not S.calls("request.write")) else False
+        if not still_there:
+            return band(len(fin) == 0, len(unreg) == 0, len(closed) == 0)
+        return band(veq(len(fin) == 1, complete), veq(len(unreg) == 1, complete), veq(len(closed) == 1, complete),
+                    len(fin) <= 1, len(unreg) <= 1, len(closed) <= 1,
+                    implies(complete, S.new.p.request is None) if not is_sym(complete) else True,
+                    S.new.p.bytesWritten == i.written + n)
+
+    ensures = dict(pulls_the_next_bytes_of_the_range=_pull, accounted_for_before_the_write=_accounted,
+                   finished_exactly_when_the_range_is_complete=_finish)
+    canaries = [("            self.bytesWritten += len(data)\n            # this .write will spin the reactor, calling .doWrite and then\n"
+                 "            # .resumeProducing again, so be prepared for a re-entrant call\n            self.request.write(data)\n"
+                 "        if self.request and self.bytesWritten == self.size:",
+                 "            self.request.write(data)\n            self.bytesWritten += len(data)\n"
+                 "        if self.request and self.bytesWritten == self.size:", "accounted_for_before_the_write"),
+                ("min(self.bufferSize, self.size - self.bytesWritten)", "self.bufferSize", "pulls_the_next_bytes_of_the_range")]
+
+
+class NoRangeResume(Contract):
+    """One pull of the whole-file producer: the next bufferSize bytes, or -- at end of file -- the response is finished."""
+    prop = "C25"
+    module = M
+    function = "NoRangeStaticProducer.resumeProducing"
+    calls = PRODUCER_CALLS
+    differential = False
+    inputs = dict(content=Bytes(alphabet=b"ab", small_len=4), pos=Int(lo=0, small=[0, 1, 6]), bufsize=Int(lo=1, small=[1, 3, 65536]),
+                  gone=ForkBool(), inside=OneOf("nothing", "finished"))
+
+    def requires(self, i):
+        return i.pos <= L(i.content)
+
+    def setup(self, i):
+        req = None if i.gone else self.opaque("request")
+        p = self.make(static.NoRangeStaticProducer, request=req, fileObject=self.opaque("file"), bufferSize=i.bufsize)
+        return dict(self=p, args=[], objs=dict(p=p), ghost=dict(pos=i.pos, content=i.content, inside=i.inside, pos_at_write=None))
+
+    raises = ()
+
+    def _pull(S):
+        i = S.i
+        if i.gone:
+            return len(S.trace) == 0
+        reads, writes, fin = S.calls("read"), S.calls("request.write"), S.calls("finish")
+        at_end = i.pos == L(i.content)
+        ok = band(len(reads) == 1, reads[0].args[0] == i.pos, reads[0].args[1] == i.bufsize)
+        if writes:
+            return band(ok, bnot(at_end), len(writes) == 1, veq(writes[0].args[0], i.content[i.pos:i.pos + i.bufsize]),
+                        len(fin) == 0, len(S.calls("close")) == 0)
+        return band(ok, at_end, len(fin) == 1, len(S.calls("unregisterProducer")) == 1, len(S.calls("close")) == 1,
+                    S.new.p.request is None)
+
+    ensures = dict(next_bytes_or_finish_at_end_of_file=_pull)
+    canaries = [("        if data:\n            # this .write will spin the reactor, calling .doWrite and then\n"
+                 "            # .resumeProducing again, so be prepared for a re-entrant call\n            self.request.write(data)\n        else:",
+                 "        if len(data) > 1:\n            self.request.write(data)\n        else:", "next_bytes_or_finish_at_end_of_file")]
+
+
 # -- bounded end-to-end -------------------------------------------------------------
 
 
@@ -198,7 +347,8 @@ class RenderRanges(Bounded):
     prop = "C25"
     title = "File.render_GET/HEAD with a Range header against an RFC 9110 reference"
     scope = ("file sizes 0..4; Range values 'bytes=' + 1..2 specs over start,end in {'',0,1,3,5} plus suffixes "
-             "0/2/9 and malformed variants; GET and HEAD; exhaustive")
+             "0/2/9 and malformed variants; GET and HEAD; GET also with a consumer that pulls the next chunk from inside "
+             "write(); exhaustive")
     functions = ["File.makeProducer", "File._parseRangeHeader", "File._doMultipleRangeRequest",
                  "SingleRangeStaticProducer", "MultipleRangeStaticProducer", "NoRangeStaticProducer"]
 
@@ -235,21 +385,59 @@ class RenderRanges(Bounded):
             for h in headers:
                 for method in (b"GET", b"HEAD"):
                     yield (n, h, method)
+                yield (n, h, b"GET", "re-entrant consumer")
         # parts and separators that straddle the producers' 64 KiB write buffer
         big = 70000
         ends = range(65300, 65540, 7) if tier == "quick" else range(65200, 65560)
         for e in ends:
             yield (big, b"bytes=0-%d,%d-%d" % (e, e + 1, e + 10), b"GET")
+            yield (big, b"bytes=0-%d,%d-%d" % (e, e + 1, e + 10), b"GET", "re-entrant consumer")
         for h in (b"bytes=0-65535", b"bytes=1-65536", b"bytes=65535-", b"bytes=-65537", b"bytes=0-69999,0-0",
                   b"bytes=10-65545,65546-69999,5-6"):
             yield (big, h, b"GET")
+            yield (big, h, b"GET", "re-entrant consumer")
 
     def nontrivial(self, case):
         return case[1] is not None and case[1].startswith(b"bytes=")
 
     def check(self, case):
-        from twisted.web.test.requesthelper import DummyRequest
-        n, header, method = case
+        from twisted.web.test.requesthelper import DummyRequest as Base
+
+        class DummyRequest(Base):
+            """DummyRequest whose pull loop gives up after 2000 pulls (a producer that never finishes is reported, not
+            waited for)"""
+            pulls = 0
+            stuck = False
+
+            def registerProducer(self, prod, s):
+                self.prod = prod
+                self.go = 1
+                while self.go:
+                    self.pulls += 1
+                    if self.pulls > 2000:
+                        self.stuck = True
+                        return
+                    prod.resumeProducing()
+
+        class ReentrantRequest(DummyRequest):
+            """a consumer that drains synchronously: write() pulls the next chunk from the registered producer before
+            it returns -- the re-entrant call the producers say they are prepared for (seeded change C25-3)"""
+
+            def write(self, data):
+                Base.write(self, data)
+                self.pulls += 1
+                if self.go and self.pulls < 300:
+                    self.prod.resumeProducing()
+
+        n, header, method = case[:3]
+        if len(case) > 3:
+            sp = reference_parse(header) if header is not None else None
+            if sp is not None and len(sp) != 1:
+                # zero or several ranges: MultipleRangeStaticProducer, the one producer that does not claim to be prepared
+                # for a re-entrant pull (it writes before it notices that it is done); no consumer in twisted pulls from
+                # inside write(), and the property quantifies over inputs, not consumers -- see DESIGN 7.5 (round 3)
+                return None
+            DummyRequest = ReentrantRequest
         content = self._content(n)
         f = static.File(self._file(n))
         f.type, f.encoding = "text/plain", None
@@ -261,6 +449,8 @@ class RenderRanges(Bounded):
             r = f.render(req)
         except Exception as e:
             return "internal error %r" % (e,)
+        if req.stuck:
+            return "the producer did not finish the response within 2000 pulls"
         body = b"".join(req.written)
         if isinstance(r, bytes):
             body += r
@@ -336,7 +526,7 @@ class RenderRanges(Bounded):
         return None
 
 
-CONTRACTS = [RangeToOffsetAndSize, ContentRange, DoSingleRangeRequest]
+CONTRACTS = [RangeToOffsetAndSize, ContentRange, DoSingleRangeRequest, SingleRangeResume, NoRangeResume]
 BOUNDED = [RenderRanges]
 NOTES = dict(
     explanation="Range arithmetic proved against RFC 9110 14.1.2 for all sizes/starts/ends; header parser, "
@@ -349,8 +539,13 @@ MANIFEST = dict(
     category="proof",
     text="File._rangeToOffsetAndSize, _contentRange and _doSingleRangeRequest are proved equal to the RFC 9110 "
          "range arithmetic (offset/size/Content-Range/206-vs-416, never an exception) for all file sizes and all "
-         "values the header parser can produce. The parser, the multipart path and the producers are checked by "
-         "the bounded tier only: every Range header of a small grammar x file sizes 0..4 x GET/HEAD rendered on "
+         "values the header parser can produce. One pull of SingleRangeStaticProducer / NoRangeStaticProducer is proved "
+         "(symbolic file content, offset, size, progress and buffer size) to hand the request exactly the next "
+         "min(bufferSize, rest) bytes of the range, to have accounted for them before request.write is called (which "
+         "may pull again), never to go beyond the range and to finish the response exactly when the range is complete. "
+         "The parser, the multipart path and MultipleRangeStaticProducer are checked by "
+         "the bounded tier only: every Range header of a small grammar x file sizes 0..4 x GET/HEAD (GET also with a "
+         "consumer that pulls from inside write()) rendered on "
          "real files and compared with an independent RFC reference (labelled bounded, not proved).",
     note="Trusted: pyvc VC generator, SMT solvers, %d formatting axiom (minimal decimal digits), ghost file size. "
          "Bounded part: exhaustive over the stated scope only.",
